@@ -615,6 +615,11 @@ def compare_calcul(ctx, py, sxc, res, mcases):
         if not hasL:
             ctx.violation('KrigingCalcul:getLambda-null-in-primal', 'KrigingCalcul(flagDual=false).getLambda() returns nullptr although the weights are available (inverted _validForDual() test; with flagDual=true it returns %s)' % ('a matrix' if dhasL else 'nullptr'),
                           {'case': sx_str(sxc), 'target': it}); found = True
+        if dhasL:
+            ctx.violation('KrigingCalcul:getLambda-nonnull-in-dual', 'KrigingCalcul(flagDual=true).getLambda() returns a matrix although the weights are documented as unavailable in dual mode',
+                          {'case': sx_str(sxc), 'target': it}); found = True
+        if hasL and Lmember and L and L != Lmember:
+            ctx.violation('KrigingCalcul:getLambda-wrong-member', 'getLambda() does not return the weights the estimate was computed with', {'case': sx_str(sxc), 'target': it}); found = True
         if err or len(kA['est']) != nvar:
             ctx.violation('KrigingCalcul:refused:' + site, 'KrigingCalcul refuses (err %d, %d estimates) a system that KrigingSystem solves' % (err, len(kA['est'])), {'case': sx_str(sxc), 'target': it}); found = True; continue
         # --- estimate (primal)
@@ -676,10 +681,10 @@ def run_pair(ctx, exe, name, cases, compare, crash_found):
         if len(res) >= len(cases) - start: break
         py, sxc = cases[start + len(res)]
         if py['mode'] == 6:
-            # every crash met so far in this pair is the same one: KrigingSystem::_lhsCalcul / _rhsCalculPoint address the
-            # pre-projected points by the neighbourhood rank, which is -1 for the collocated target
-            ctx.violation('colcok:segfault-rank-minus-one', 'collocated cokriging through KrigingSystem crashes (rc %s): the collocated target enters the neighbourhood as rank -1 and '
-                          'ACov::load reads _p1As[-1]' % rc, {'case': sx_str(sxc)})
+            # regression key of the repaired defect: KrigingSystem::_lhsCalcul / _rhsCalculPoint addressed the pre-projected points by
+            # the neighbourhood rank, which is -1 for the collocated target (ACov::load read _p1As[-1])
+            ctx.violation('colcok:segfault-rank-minus-one', 'collocated cokriging through KrigingSystem crashes (rc %s); the collocated target enters the neighbourhood as rank -1, '
+                          'which must be addressed as the target point, never as an index of the pre-projected data points' % rc, {'case': sx_str(sxc)})
         else:
             ctx.violation('crash:' + pair_site(py), 'impl crashed (rc %s) on this case' % rc, {'case': sx_str(sxc)})
         found = True
@@ -790,15 +795,16 @@ def run(ctx):
         'pair 2: one sector, no extra checker, no cross-validation, radius >= every distance (or no radius), nmaxi >= number of samples, nmini <= number of usable samples',
         'pair 3: monovariate (the shortcut only handles variable 0); B_ii <> 0; the cross-validated sample has defined coordinates and external drifts',
         'pair 4: ties of distances excluded; neighbourhood comparison only in 2-D (BiTargetCheckDistance without coefficients measures exactly two coordinates: 1-D / 3-D are C06 findings), '
-        'no mask, no undefined value, one sector, nmaxi <= number of samples',
+        'no mask, no undefined value, one sector, nmini <= nmaxi <= number of samples (premises of C04_ball_moving)',
         'pair 5: estimate, weights and Var(Z*) compared; the estimation variance only through stdev^2 - C(target,target), because _covCvvCalcul uses a randomised second discretisation',
-        'pair 6: the theorem describes the system the accessors of KrigingSystem define for rank -1; the implementation crashes before building it (finding)',
+        'pair 6: targets do not coincide with a datum (the option is then ignored by design); compared in unique and in wide moving neighbourhoods',
         'pair 7: covariance / drift matrices built with the Model API on data without undefined coordinates or external drifts (same equation set as KrigingSystem); fresh objects only '
         '(cache invalidation belongs to C10)',
         'round-off tolerance 1e-9 x condition number of the kriging matrix (inf-norm), as in C01']
     ctx.notes = ['not covered: Bayesian, collocated and cross-validation patches of KrigingCalcul (setBayes / setColCokUnique / setXvalidUnique); neighbourhood memo reuse (_checkUnchanged); '
                  'image neighbourhood; non-stationary models (the optimised path is disabled for them); undefined coordinates (C05)',
-                 'C04_ball_moving is stated in full (Definition C04_ball_moving_statement) but only the degenerate case is proved (C04_ball_moving_partial)']
+                 'fixed defects kept as regression cases in corpus/C04.sx: colcok:segfault-rank-minus-one, xvalid-unique:undefined-external-drift, migrate:ball:dmax-tested-after-nearest, '
+                 'migrate:ball:masked-source, KrigingCalcul:getLambda-null-in-primal, KrigingCalcul:primal-SK-mean-not-added']
     if not proofs_ok: proof_break_violation(ctx, found_input)
 
 if __name__ == '__main__':
